@@ -56,7 +56,11 @@ def one_case(rng, tier):
     for _ in range(rng.choice([1, 1, 1, 2])):
         add({'op': rng.choice(['rate_limit', 'rate_limit', 'delay']), 'interval': rng.choice([0, 0.25, 0.5, 0.5, 1.0, 1.0, 2.0]),
              'ival_str': rng.random() < 0.25})        # '250ms' / '1s' instead of the number
-        if rng.random() < 0.06:
+        if rng.random() < 0.08:
+            # intervals that are not a whole number of milliseconds (computed from a rate)
+            nodes[-1]['interval'] = rng.choice([1 / 3, 1 / 30, 0.0004])
+            nodes[-1]['ival_str'] = False
+        elif rng.random() < 0.06:
             # long intervals in the string forms the API accepts ('90min', '1D', '25h'); virtual time makes them free
             nodes[-1]['interval'] = rng.choice([5400.0, 86400.0, 90000.0])
             nodes[-1]['ival_str'] = True
@@ -107,6 +111,8 @@ def check_case(case, counters, sets):
         add('C13:emit-raised:%s' % type(exc).__name__, 'emit #%d raised %r' % (i, exc))
     ins, outs = asyncrun.by_node(ar.log)
     ar.interesting = False
+    # a clock that reads 1.7e9 resolves 2.4e-7 s: differences of time stamps carry that much rounding
+    EPS = 1e-6 if case.get('t0') else 1e-9
     for spec in case['prog']['nodes']:
         if spec['op'] not in ('rate_limit', 'delay'):
             continue
